@@ -163,7 +163,8 @@ def pack4_8_little(array: np.ndarray, packed: np.ndarray) -> None:
         packed[ii] = (array[pos + 1] << 4) | array[pos + 0]
 
 
-@njit(cache=True, fastmath=True, locals={"temp": types.f8})
+# No fastmath: the reciprocal-multiply it allows turns exact means into k - epsilon
+@njit(cache=True, locals={"temp": types.f8})
 def downsample_1d_mean(array: np.ndarray, factor: int) -> np.ndarray:
     """Downsample a 1D array by averaging over bins.
 
@@ -194,7 +195,7 @@ def downsample_1d_mean(array: np.ndarray, factor: int) -> np.ndarray:
     return result
 
 
-@njit(cache=True, fastmath=True, locals={"temp": types.f8})
+@njit(cache=True, locals={"temp": types.f8})
 def downsample_2d_mean_flat(
     array: np.ndarray,
     factor1: int,
@@ -246,13 +247,11 @@ def downsample_2d_mean_flat(
 downsample_1d_mean_parallel = njit(
     downsample_1d_mean.py_func,
     parallel=True,
-    fastmath=True,
     locals={"temp": types.f8},
 )
 downsample_2d_mean_parallel = njit(
     downsample_2d_mean_flat.py_func,
     parallel=True,
-    fastmath=True,
     locals={"temp": types.f8},
 )
 
